@@ -1,7 +1,9 @@
 """X09 - registries (mnemonic <-> number, generic TYPEnnn / CLASSnnn forms) and the header bit-field codecs
 (opcode, extended rcode, flag texts) match the Registries specification."""
 import collections
+import concurrent.futures as cf
 import json
+import os
 import re
 
 from drivers import x09_machines as drv
@@ -31,6 +33,7 @@ CONSTANTS
   Depth = {depth}
   RDepth = {rdepth}
   Kinds = {{{kinds}}}
+  HSet = "{hset}"
 INVARIANT Emit
 CHECK_DEADLOCK FALSE
 """
@@ -87,9 +90,59 @@ def describe(e):
     return json.dumps(e)[:300]
 
 
-def gen(ctx, kinds, depth=1, rdepth=1, tag="all"):
-    cfg = ctx.cfg("gen_%s.cfg" % tag, GEN_CFG.format(tier=ctx.tier, depth=depth, rdepth=rdepth, kinds=", ".join('"%s"' % k for k in kinds)))
+def gen(ctx, kinds, depth=1, rdepth=1, tag="all", hset="full"):
+    cfg = ctx.cfg("gen_%s.cfg" % tag, GEN_CFG.format(tier=ctx.tier, depth=depth, rdepth=rdepth, hset=hset, kinds=", ".join('"%s"' % k for k in kinds)))
     return ctx.generate("Gen_Registries", cfg, count=False)
+
+
+MC_CFG = """SPECIFICATION MCSpec
+CONSTANTS
+  Tier = "{tier}"
+  Modes = {{{modes}}}
+  MDepth = {depth}
+  MRDepth = {depth}
+  ValueRegs = {{{regs}}}
+  Slices = {slices}
+  Slice = {slice}
+  Ops <- GOps
+  Rcs <- GRcs
+  Vers <- GVers
+  ELos <- GELos
+  RVals <- GRVals
+  RTexts <- GRTexts
+INVARIANT FieldLaws
+INVARIANT FlagsLaws
+INVARIANT RcodeLaws
+INVARIANT EhiLaws
+INVARIANT ValueLaws
+INVARIANT TextLaws
+INVARIANT HeaderOK
+INVARIANT RegLaws
+PROPERTY OpcodeFrame
+PROPERTY RcodeFrame
+PROPERTY FlagFrame
+PROPERTY DnssecFrame
+CHECK_DEADLOCK FALSE
+"""
+SMALL_REGS = ["rcode", "opcode", "algorithm", "dsdigest", "nsec3hash", "section", "updsection", "zonemdscheme", "zonemdhash"]
+BIG_REGS = {"quick": ["type", "class"], "thorough": ["type", "class", "option", "ede", "svcparam"]}
+
+
+def model_runs(ctx):
+    """MC_Registries, one TLC process (1 worker = 1 slot) per mode group / slice of the 65536-value sweeps"""
+    q = lambda xs: ", ".join('"%s"' % x for x in xs)
+    plan = [(["fields", "rcode", "ehi", "text", "header", "reg"], [], 1, 0), (["value"], SMALL_REGS, 1, 0)]
+    plan += [(["flags"], [], 4, s) for s in range(4)]
+    plan += [(["value"], [reg], 2, s) for reg in BIG_REGS[ctx.tier] for s in range(2)]
+
+    def one(p):
+        modes, regs, slices, sl = p
+        name = "mc_%s_%s_%d.cfg" % ("-".join(modes)[:20], "-".join(regs)[:12], sl)
+        cfg = ctx.cfg(name, MC_CFG.format(tier=ctx.tier, modes=q(modes), regs=q(regs), slices=slices, slice=sl, depth=2 if ctx.tier == "quick" else 3))
+        return ctx.model("MC_Registries", cfg, workers=1)
+
+    with cf.ThreadPoolExecutor(max_workers=10) as ex:
+        list(ex.map(one, plan))
 
 
 def run(ctx):
@@ -106,8 +159,11 @@ def run(ctx):
     if ctx.replay_case:
         items = [ctx.replay_case["case"]["item"]]
     else:
-        ctx.model("MC_Registries", "MC_Registries_%s.cfg" % ctx.tier, workers=1 if quick else 4)
-        items = gen(ctx, STATIC + ["hb", "rb"], depth=2 if quick else 3, rdepth=2 if quick else 3)
+        if not os.environ.get("X09_SKIP_MC"):  # development / mutation harness only
+            model_runs(ctx)
+        items = gen(ctx, STATIC + ["hb", "rb"], depth=2, rdepth=2 if quick else 3)
+        if not quick:  # deeper header behaviours over the small call universe
+            items += gen(ctx, ["hb"], depth=4, tag="deep", hset="small")
         items += [["text", reg, s] for reg in ("type", "class", "rcode") for s in FOREIGN]
         ctx.extra["universe_sizes"] = dict(collections.Counter(it[0] for it in items))
         ctx.extra["exhaustive"] = True
@@ -161,6 +217,11 @@ def run(ctx):
     # drift: tables, output order, error classes, collisions (never an alarm)
     bad = {tr["tid"] for tr, _, _ in rejects}
     soft = [tr for tr in traces if tr["tid"] not in bad]
+    if quick and not ctx.replay_case:  # drift only: the quick tier judges every fourth header behaviour (deterministic)
+        hb = [tr["tid"] for tr in soft if tr["kind"] == "hb"]
+        keep = set(hb[::4])
+        soft = [tr for tr in soft if tr["kind"] != "hb" or tr["tid"] in keep]
+        ctx.extra["strict_header_behaviours"] = "%d of %d" % (len(keep), len(hb))
     drift = ctx.validate("Trace_Registries", "Trace_Registries_strict.cfg", soft)
     ctx.traces -= len(soft)  # the same traces, judged a second time
     ctx.drift = len(drift)
